@@ -1,3 +1,251 @@
 import Mixin.Model.Consensus
+import Mixin.Model.ConsensusCodes
+import Mixin.Facts.ExpectedC28
+/-!
+# C28 — consensus operations form a serialized single-transaction chain
+
+Theorems about `Mixin.Model.Consensus` (model of `IsSnapshotBatchable`,
+`validateKernelSnapshot`, `validateConsensusTransactionReferences`,
+`WriteConsensusSnapshotWithHack`, `writeConsensusSnapshot`, `readLastConsensusSnapshot`).
+The type codes are a parameter `c : Codes`; the only relation used is `CodesOK c` (no
+consensus class is batchable), proved for the regenerated constants in
+`Facts/ExpectedC28.lean` (`realCodes_ok`).
+-/
 namespace Mixin.C28
+open Mixin.Consensus
+
+/-- no consensus class is batchable -/
+def CodesOK (c : Codes) : Prop := ∀ t, isConsensusType c t = true → isBatchable c t = false
+
+theorem realCodes_ok : CodesOK realCodes := Mixin.Facts.ExpectedC28.realCodes_ok
+
+/-- the validator let the snapshot through (possibly pending the per-type validator) -/
+def Passed (k : KDecision) : Prop := k = .accept ∨ k = .typeCheck
+
+/-! ## batch rule -/
+
+theorem isBatchable_iff (c : Codes) (t : Nat) :
+    isBatchable c t = true ↔
+      t = c.tScript ∨ t = c.tDeposit ∨ t = c.tWithdrawalSubmit ∨ t = c.tWithdrawalClaim := by
+  simp [isBatchable, or_assoc]
+
+theorem kernel_multi (c : Codes) (e : Env) (st : Store) (s : Snap) (self : Bool) (round : Nat)
+    (found : List Tx) (fin : Bool) (hlen : s.txs.length > 1) :
+    validateKernel c e st s self round found fin =
+      if found.all (fun t => isBatchable c t.ttype) then .accept else .reject := by
+  unfold validateKernel; simp [hlen]
+
+/-- **multi_tx_only_batchable.** A snapshot with more than one transaction that passes the
+    kernel validator: every transaction body found so far is script / deposit / withdrawal
+    submit / withdrawal claim. -/
+theorem multi_tx_only_batchable (c : Codes) (e : Env) (st : Store) (s : Snap) (self : Bool)
+    (round : Nat) (found : List Tx) (fin : Bool) (hlen : s.txs.length > 1)
+    (hp : Passed (validateKernel c e st s self round found fin)) :
+    ∀ t ∈ found, t.ttype = c.tScript ∨ t.ttype = c.tDeposit ∨
+      t.ttype = c.tWithdrawalSubmit ∨ t.ttype = c.tWithdrawalClaim := by
+  intro t ht
+  rw [kernel_multi c e st s self round found fin hlen] at hp
+  by_cases hall : found.all (fun t => isBatchable c t.ttype) = true
+  · exact (isBatchable_iff c t.ttype).mp (List.all_eq_true.mp hall t ht)
+  · simp [hall, Passed] at hp
+
+/-- … and when all bodies have been found, every transaction of the snapshot is of a
+    batchable class. -/
+theorem multi_tx_only_batchable_all (c : Codes) (e : Env) (st : Store) (s : Snap) (self : Bool)
+    (round : Nat) (found : List Tx) (fin : Bool) (hlen : s.txs.length > 1)
+    (hfound : ∀ h ∈ s.txs, ∃ t ∈ found, t.hash = h)
+    (hp : Passed (validateKernel c e st s self round found fin)) :
+    ∀ h ∈ s.txs, ∃ t ∈ found, t.hash = h ∧ isBatchable c t.ttype = true := by
+  intro h hh
+  obtain ⟨t, ht, hth⟩ := hfound h hh
+  exact ⟨t, ht, hth, (isBatchable_iff c t.ttype).mpr
+    (multi_tx_only_batchable c e st s self round found fin hlen hp t ht)⟩
+
+example : Passed (validateKernel realCodes ⟨false, 0, none⟩ ⟨[], []⟩ ⟨1, 5, [10, 11]⟩ true 1
+    [⟨10, 0, false, some 0, false, []⟩, ⟨11, 2, false, some 0, false, []⟩] false) :=
+  Or.inl (by decide)
+
+/-- **consensus_alone.** If a snapshot passes while a mint, membership or custodian
+    transaction is among its found bodies, the snapshot holds exactly one transaction. -/
+theorem consensus_alone (c : Codes) (hc : CodesOK c) (e : Env) (st : Store) (s : Snap)
+    (self : Bool) (round : Nat) (found : List Tx) (fin : Bool) (t : Tx) (ht : t ∈ found)
+    (hcons : isConsensusType c t.ttype = true)
+    (hp : Passed (validateKernel c e st s self round found fin)) :
+    s.txs.length ≤ 1 := by
+  by_cases hlen : s.txs.length > 1
+  · have hb := multi_tx_only_batchable c e st s self round found fin hlen hp t ht
+    have := hc t.ttype hcons
+    rw [(isBatchable_iff c t.ttype).mpr hb] at this
+    exact absurd this (by simp)
+  · omega
+
+example : validateKernel realCodes ⟨false, 0, none⟩ ⟨[], []⟩ ⟨1, 5, [10, 11]⟩ true 1
+    [⟨10, 0, false, some 0, false, []⟩, ⟨11, 6, false, some 163, false, [7]⟩] false = .reject := by decide
+
+/-! ## reference rule -/
+
+/-- what `validateConsensusTransactionReferences` established when it returned nil for a
+    consensus-class transaction -/
+def LinksPrev (st : Store) (hack : Option Snap) (sts : Nat) (tx : Tx) : Prop :=
+  ∃ last b ltx, readLastWithHack st hack = some (last, b) ∧ last.txs = [ltx] ∧
+    (ltx = tx.hash ∨ (tx.refs.head? = some ltx ∧ last.ts < sts))
+
+/-- **consensus_links_prev.** An accepted consensus operation references (as its first
+    reference) the sole transaction of the last recorded consensus snapshot and its snapshot
+    timestamp is strictly later — or it is that last transaction again (a replay). -/
+theorem consensus_links_prev (c : Codes) (st : Store) (hack : Option Snap) (sts : Nat) (tx : Tx)
+    (hcons : isConsensusType c tx.ttype = true)
+    (hacc : validateRefs c st hack sts tx = .accept) : LinksPrev st hack sts tx := by
+  unfold validateRefs at hacc
+  simp only [hcons, Bool.not_true, Bool.false_eq_true, if_false] at hacc
+  split at hacc
+  · exact absurd hacc (by simp)
+  · cases hr : readLastWithHack st hack with
+    | none => simp [hr] at hacc
+    | some p =>
+      obtain ⟨last, b⟩ := p
+      simp only [hr] at hacc
+      split at hacc
+      · exact absurd hacc (by simp)
+      · next hl =>
+        cases htx : last.txs with
+        | nil => simp [htx] at hacc
+        | cons ltx rest =>
+          have hrest : rest = [] := by
+            cases rest with
+            | nil => rfl
+            | cons a r => simp [htx] at hl
+          subst hrest
+          simp only [htx, List.head?_cons] at hacc
+          refine ⟨last, b, ltx, hr, htx, ?_⟩
+          by_cases h1 : ltx = tx.hash
+          · exact Or.inl h1
+          · right
+            simp only [beq_iff_eq, h1, if_false] at hacc
+            split at hacc
+            · exact absurd hacc (by simp)
+            · next h2 =>
+              split at hacc
+              · exact absurd hacc (by simp)
+              · next h3 =>
+                constructor
+                · simpa using h2
+                · omega
+
+/-- the kernel validator applies the reference rule to every single-transaction snapshot that
+    is not inside the hard-coded mainnet pre-fork exemption -/
+theorem kernel_single_refs (c : Codes) (e : Env) (st : Store) (s : Snap) (self : Bool)
+    (round : Nat) (tx : Tx) (fin : Bool) (hs : s.txs = [tx.hash])
+    (hfork : ¬ (fin = true ∧ e.mainnet = true ∧ s.ts < e.forkAt))
+    (hp : Passed (validateKernel c e st s self round [tx] fin)) :
+    validateRefs c st e.hack s.ts tx = .accept := by
+  unfold validateKernel at hp
+  have hf : (fin && e.mainnet && decide (s.ts < e.forkAt)) = false := by
+    cases fin <;> cases hm : e.mainnet <;> simp_all
+  simp only [hs, List.length_singleton, gt_iff_lt, Nat.lt_irrefl, if_false, hf,
+    Bool.false_eq_true, List.head?_cons, List.find?_cons, beq_self_eq_true] at hp
+  split at hp
+  · simp [Passed] at hp
+  · cases hr : validateRefs c st e.hack s.ts tx with
+    | accept => rfl
+    | reject => simp [hr, Passed] at hp
+    | panic => simp [hr, Passed] at hp
+
+/-- **consensus_links_prev at the kernel validator.** -/
+theorem kernel_consensus_links_prev (c : Codes) (e : Env) (st : Store) (s : Snap) (self : Bool)
+    (round : Nat) (tx : Tx) (fin : Bool) (hs : s.txs = [tx.hash])
+    (hfork : ¬ (fin = true ∧ e.mainnet = true ∧ s.ts < e.forkAt))
+    (hcons : isConsensusType c tx.ttype = true)
+    (hp : Passed (validateKernel c e st s self round [tx] fin)) :
+    LinksPrev st e.hack s.ts tx :=
+  consensus_links_prev c st e.hack s.ts tx hcons
+    (kernel_single_refs c e st s self round tx fin hs hfork hp)
+
+/-! ## the writer's assertions -/
+
+theorem findBody_addBody_of_some (st : Store) (s : Snap) (h : Nat) (b : Snap)
+    (hb : findBody st.bodies h = some b) : findBody (addBody st s).bodies h = some b := by
+  unfold addBody
+  split
+  · exact hb
+  · simp only [findBody] at hb ⊢
+    rw [List.find?_append, hb]; rfl
+
+theorem addBody_recs (st : Store) (s : Snap) : (addBody st s).recs = st.recs := by
+  unfold addBody; split <;> rfl
+
+theorem readLast_addBody (st : Store) (s l : Snap) (h : readLast st = .some l) :
+    readLast (addBody st s) = .some l := by
+  unfold readLast at h ⊢
+  rw [addBody_recs]
+  cases hr : (st.recs.filter seekable).getLast? with
+  | none => simp [hr] at h
+  | some r =>
+    simp only [hr] at h ⊢
+    cases hb : findBody st.bodies r.snap with
+    | none => simp [hb] at h
+    | some b =>
+      rw [findBody_addBody_of_some st s r.snap b hb]
+      simpa [hb] using h
+
+theorem readLastWithHack_none_some (st : Store) (l : Snap) (b : Bool)
+    (h : readLastWithHack st none = some (l, b)) : readLast st = .some l ∧ b = false := by
+  unfold readLastWithHack at h
+  cases hr : readLast st with
+  | none => simp [hr] at h
+  | panic => simp [hr] at h
+  | some s => simp [hr] at h; exact ⟨by rw [h.1], h.2⟩
+
+/-- transaction shape that `writeConsensusSnapshot` asserts: a sole mint input, or the
+    consensus output first. Guaranteed by transaction validation (one output for node and
+    custodian transactions, one input for a mint), which is outside this model; the harness
+    runs the writer on the excluded shapes and reports the panic as an observation. -/
+def ShapeOK (c : Codes) (tx : Tx) : Prop := shapeOk c tx = true
+
+theorem shapeOK_iff (c : Codes) (tx : Tx) :
+    ShapeOK c tx ↔ tx.mintSole = true ∨ ∃ o, tx.out0 = some o ∧ isConsensusOutput c o = true := by
+  unfold ShapeOK shapeOk
+  cases tx.out0 <;> simp
+
+/-- **write_asserts_unreachable.** On every network without the mainnet fallback: when the
+    reference rule accepted a well-shaped consensus operation carried alone by `snap`, then
+    `WriteConsensusSnapshotWithHack` (after the snapshot body was written) does not panic. -/
+theorem write_asserts_unreachable (c : Codes) (e : Env) (st : Store) (snap : Snap) (tx : Tx)
+    (hh : e.hack = none) (hcons : isConsensusType c tx.ttype = true) (hshape : ShapeOK c tx)
+    (hs : snap.txs = [tx.hash])
+    (hacc : validateRefs c st none snap.ts tx = .accept) :
+    writeWithHack c e (addBody st snap) snap tx ≠ .panic := by
+  obtain ⟨last, b, ltx, hr, htx, hlink⟩ := consensus_links_prev c st none snap.ts tx hcons hacc
+  obtain ⟨hrl, hb⟩ := readLastWithHack_none_some st last b hr
+  subst hb
+  have hrl' := readLast_addBody st snap last hrl
+  have hshape' : shapeOk c tx = true := hshape
+  unfold writeWithHack
+  simp only [hcons, Bool.not_true, Bool.false_eq_true, if_false, hh]
+  have : readLastWithHack (addBody st snap) none = some (last, false) := by
+    unfold readLastWithHack; rw [hrl']
+  rw [this]
+  unfold writeConsensus
+  simp only [hs, List.length_singleton, ne_eq, not_true_eq_false, if_false, List.head?_cons,
+    hshape', Bool.not_true, Bool.false_eq_true, hrl', htx]
+  by_cases hg : tx.isGenesis = true
+  · simp [hg]
+  · simp only [hg, Bool.false_eq_true, if_false]
+    rcases hlink with h1 | ⟨h2, h3⟩
+    · simp [h1]
+    · by_cases h1 : ltx = tx.hash
+      · simp [h1]
+      · have : ¬ last.ts ≥ snap.ts := by omega
+        simp [h1, h2, this]
+
+example : writeWithHack realCodes ⟨false, 0, none⟩
+    (addBody ⟨[⟨100, 5, [7]⟩], [⟨5, 100, none⟩]⟩ ⟨101, 9, [8]⟩) ⟨101, 9, [8]⟩
+    ⟨8, 6, false, some 163, false, [7]⟩ =
+    .ok ⟨[⟨100, 5, [7]⟩, ⟨101, 9, [8]⟩], [⟨5, 100, some 8⟩, ⟨9, 101, none⟩]⟩ := by decide
+
+/-- outside the shape hypothesis the assertion does fire (node output second) -/
+example : writeWithHack realCodes ⟨false, 0, none⟩
+    (addBody ⟨[⟨100, 5, [7]⟩], [⟨5, 100, none⟩]⟩ ⟨101, 9, [8]⟩) ⟨101, 9, [8]⟩
+    ⟨8, 6, false, some 0, false, [7]⟩ = .panic := by decide
+
 end Mixin.C28
